@@ -108,7 +108,15 @@ class USBIsochronousStreamOutEndpoint(Elaboratable):
 
         sufficient_space         = (fifo.space_available >= self._max_packet_size)
 
-        okay_to_receive          = targeting_endpoint & sufficient_space
+        # Decide whether there is room for a packet once, on its first byte, and stick to that decision
+        # until the packet ends. (Re-evaluating the space per byte would cut a packet short, as the space
+        # shrinks with every byte of the packet we write.)
+        accepting_packet         = Signal()
+        room_for_packet          = Mux(rx_first, sufficient_space, accepting_packet)
+        with m.If(rx.next & rx.valid & rx_first):
+            m.d.usb += accepting_packet.eq(sufficient_space)
+
+        okay_to_receive          = targeting_endpoint & room_for_packet
         data_is_lost             = okay_to_receive & rx.next & rx.valid & fifo.full
 
         full_packet              = rx_cnt == self._max_packet_size - 1
